@@ -8,8 +8,6 @@ package irsetup
 import (
 	"errors"
 	"fmt"
-	"runtime"
-	"time"
 
 	"github.com/nspcc-dev/neo-go/pkg/core/state"
 	"github.com/nspcc-dev/neo-go/pkg/core/transaction"
@@ -22,7 +20,6 @@ import (
 	"github.com/nspcc-dev/neo-go/pkg/vm/opcode"
 	"github.com/nspcc-dev/neo-go/pkg/vm/stackitem"
 	"github.com/nspcc-dev/neofs-node/pkg/morph/event"
-	"github.com/nspcc-dev/neofs-node/verifharness/irfix"
 )
 
 // NotaryEv is a harness implementation of event.NotaryEvent: what the notary
@@ -35,10 +32,10 @@ type NotaryEv struct {
 	Req      *payload.P2PNotaryRequest
 }
 
-func (e NotaryEv) ScriptHash() util.Uint160          { return e.Contract }
-func (e NotaryEv) Type() event.NotaryType            { return event.NotaryTypeFromString(e.Method) }
-func (e NotaryEv) Params() []scparser.PushedItem     { return e.Args }
-func (e NotaryEv) Raw() *payload.P2PNotaryRequest    { return e.Req }
+func (e NotaryEv) ScriptHash() util.Uint160       { return e.Contract }
+func (e NotaryEv) Type() event.NotaryType         { return event.NotaryTypeFromString(e.Method) }
+func (e NotaryEv) Params() []scparser.PushedItem  { return e.Args }
+func (e NotaryEv) Raw() *payload.P2PNotaryRequest { return e.Req }
 
 // Request is a notary request as a client (storage node / user) would have
 // sent it: main transaction calling contract.method(args) with the usual
@@ -137,30 +134,3 @@ func Notification(contract util.Uint160, name string, tx util.Uint256, items ...
 		},
 	}
 }
-
-// Runner abstracts "the processor's pool is idle".
-type Runner interface{ VerifPoolRunning() int }
-
-// WaitIdle spins until none of the pools runs a task. The registered handlers
-// hand their work to a pool synchronously (ants Submit returns after a worker
-// took the task), so after the handler returned "running == 0" means done.
-// The deadline only turns a harness hang into an error.
-func WaitIdle(deadline time.Duration, rs ...Runner) error {
-	start := time.Now()
-	for {
-		busy := 0
-		for _, r := range rs {
-			busy += r.VerifPoolRunning()
-		}
-		if busy == 0 {
-			return nil
-		}
-		if time.Since(start) > deadline {
-			return fmt.Errorf("worker pools still busy after %v", deadline)
-		}
-		runtime.Gosched()
-		time.Sleep(200 * time.Microsecond)
-	}
-}
-
-var _ = irfix.Key
